@@ -172,6 +172,7 @@ type tlSummary struct {
 	markAll    bool              // sets every flag of P0 true
 	retTab     [][]string        // per result: roots ("P<k>..." or "L" for a table local to the callee) the returned pointer may denote
 	mutTab     map[string]string // table roots (parameter- or freevar-rooted, or unknown) whose content this function may change -> witness
+	moves      []int             // parameters whose table gives containers away together with their flags: callers must pass a temporary
 	done       bool
 }
 
@@ -181,7 +182,7 @@ func (s *tlSummary) sig() string {
 		mt = append(mt, k)
 	}
 	sort.Strings(mt)
-	return fmt.Sprintf("%v|%v|%v|%v|%v|%v|%v|%v|%v|%v", s.ret, s.pair, s.establish, s.estPaths, s.reqs, s.flagLoad, s.flagSet, s.markAll, mt, s.retTab)
+	return fmt.Sprintf("%v|%v|%v|%v|%v|%v|%v|%v|%v|%v|%v", s.ret, s.pair, s.establish, s.estPaths, s.reqs, s.flagLoad, s.flagSet, s.markAll, mt, s.retTab, s.moves)
 }
 
 // ---- sites ----
@@ -356,6 +357,8 @@ type tlFunc struct {
 	out     map[*ssa.BasicBlock]factSet // facts at block end (before edge gens)
 	prov    map[ssa.Value]atomSet
 	busy    map[ssa.Value]bool
+	provHits   map[ssa.Value]bool    // values met while busy during the current provOf evaluation
+	provApprox map[ssa.Value]atomSet // current approximation of cycle heads
 	roots   map[ssa.Value]string
 	rbusy   map[ssa.Value]bool
 	grp     map[ssa.Value]ssa.Value // union-find over slot-slice values
@@ -1680,17 +1683,68 @@ func globalise(s atomSet, where string) atomSet {
 
 // ---- provenance ----
 
+// provOf: provenance atoms of a container-typed value. Phi webs are cyclic: a value met again while it is
+// being evaluated contributes its current approximation, the evaluation of the cycle head is repeated
+// until that approximation is stable, and nothing computed from an unfinished approximation is cached.
 func (t *tlFunc) provOf(v ssa.Value) atomSet {
 	if s, ok := t.prov[v]; ok {
 		return s
 	}
 	if t.busy[v] {
+		if t.provHits == nil {
+			t.provHits = map[ssa.Value]bool{}
+		}
+		t.provHits[v] = true
+		if a, ok := t.provApprox[v]; ok {
+			return a
+		}
 		return atomSet{}
 	}
-	t.busy[v] = true
-	s := t.prov1(v)
-	delete(t.busy, v)
-	t.prov[v] = s
+	if t.provApprox == nil {
+		t.provApprox = map[ssa.Value]atomSet{}
+	}
+	outer := t.provHits
+	var s atomSet
+	var inner map[ssa.Value]bool
+	for iter := 0; ; iter++ {
+		t.provHits = map[ssa.Value]bool{}
+		t.busy[v] = true
+		s = t.prov1(v)
+		delete(t.busy, v)
+		inner = t.provHits
+		if !inner[v] || iter > 8 {
+			break
+		}
+		old := t.provApprox[v]
+		if len(old) == len(s) {
+			same := true
+			for k := range s {
+				if _, ok := old[k]; !ok {
+					same = false
+				}
+			}
+			if same {
+				break
+			}
+		}
+		cp := atomSet{}
+		cp.addAll(s)
+		t.provApprox[v] = cp
+	}
+	delete(inner, v)
+	delete(t.provApprox, v)
+	t.provHits = outer
+	if len(inner) == 0 {
+		t.prov[v] = s
+	} else {
+		// depends on the unfinished approximation of an enclosing evaluation: valid for this query only
+		if t.provHits == nil {
+			t.provHits = map[ssa.Value]bool{}
+		}
+		for k := range inner {
+			t.provHits[k] = true
+		}
+	}
 	return s
 }
 
@@ -1752,9 +1806,13 @@ func (t *tlFunc) prov1(v ssa.Value) atomSet {
 					ef = t.edgeFacts(pr, k)
 				}
 			}
+			backEdge := x.Block().Dominates(pr)
 			for _, a := range t.provOf(e) {
 				if a.k == aSlot && a.idx != nil && ef[factKey{a.tab, a.idx}] {
 					out.add(atom{k: aGate, tab: a.tab})
+				} else if a.k == aFresh && backEdge && a.why == "" {
+					// the object was created in an earlier iteration of the loop headed by this block
+					out.add(atom{k: aFresh, why: fmt.Sprintf("carried:%d", x.Block().Index)})
 				} else {
 					out.add(a)
 				}
